@@ -62,11 +62,14 @@ def deviations(ctx):
     jobs.append((dict(module="Sandbox", cfg=(scfg % '{"TruncatedRead"}').replace("ExecOnlyUnderFilter", "WholeFileEnforced ExecOnlyUnderFilter"), name="dev_sandbox_trunc", expect_violation=True), None))
     import c13
     for dev, inv in (('{"SortNamesInPlace"}', ("NoConflict", "InputUnchanged")), ('{"PackageCache"}', ("NoConflict", "InputUnchanged")),
-                     ('{"FlagStringMapOrder"}', "FlagStringDeterministic")):
+                     ('{"FlagStringMapOrder"}', "FlagStringDeterministic"), ('{"ActionNamesInverted"}', "ActionStringDeterministic")):
         j = c13.conc_job("dev_conc_" + dev.strip('{}"'), "names", '<<"Assemble", "FlagString">>')
         j["cfg"] = j["cfg"].replace("Dev = {}", "Dev = " + dev)
         j["expect_violation"] = True
         jobs.append((j, inv))
+    import c18
+    jobs.append((dict(module="ProfileGen", cfg=(c18.GEN_CFG % (1, ctx.path("selftest_profile.json"))).replace("Dev = {}", 'Dev = {"NoTruncate"}'), name="dev_profile_notruncate",
+                      expect_violation=True, workers=1), "ASSUME"))
     res = ctx.tlc_many([j for j, _ in jobs], parallel=4)
     for (j, inv), r in zip(jobs, res):
         want = (inv,) if isinstance(inv, str) else inv
